@@ -610,6 +610,31 @@ impl AsFd for Tty {
 
 impl Write for Tty {
     fn write(&mut self, buf: &[u8]) -> std::io::Result<usize> {
+        #[cfg(feature = "verif-hooks")]
+        if let Some(fault) = verif::next_write_fault() {
+            match fault {
+                verif::WriteFault::Pass => {}
+                verif::WriteFault::Short(n) => {
+                    let n = n.min(buf.len());
+                    if n < buf.len() {
+                        verif::count(0);
+                    }
+                    return rustix::io::write(self, &buf[..n]).map_err(std::io::Error::from);
+                }
+                verif::WriteFault::Zero => {
+                    verif::count(1);
+                    return Ok(0);
+                }
+                verif::WriteFault::WouldBlock => {
+                    verif::count(2);
+                    return Err(std::io::ErrorKind::WouldBlock.into());
+                }
+                verif::WriteFault::Interrupted => {
+                    verif::count(3);
+                    return Err(std::io::ErrorKind::Interrupted.into());
+                }
+            }
+        }
         rustix::io::write(self, buf).map_err(std::io::Error::from)
     }
 
@@ -777,5 +802,60 @@ impl PollEvents<'_> {
 
     pub fn len(&self) -> usize {
         self.matched.len()
+    }
+}
+
+/// Verification hooks (add-only, compiled only with the `verif-hooks` feature): a script of faults for
+/// the next calls of `Tty::write`, so that short writes, zero-byte writes, EAGAIN and EINTR of the tty can
+/// be forced at chosen points of a session.
+#[cfg(feature = "verif-hooks")]
+pub mod verif {
+    use std::collections::VecDeque;
+    use std::sync::Mutex;
+    use std::sync::atomic::{AtomicUsize, Ordering};
+
+    #[derive(Clone, Copy, Debug)]
+    pub enum WriteFault {
+        /// perform the write normally
+        Pass,
+        /// hand only the first `n` bytes of the slice to the tty
+        Short(usize),
+        /// report `Ok(0)` without writing
+        Zero,
+        /// fail with EAGAIN
+        WouldBlock,
+        /// fail with EINTR
+        Interrupted,
+    }
+
+    static SCRIPT: Mutex<VecDeque<WriteFault>> = Mutex::new(VecDeque::new());
+    static COUNTS: [AtomicUsize; 4] = [
+        AtomicUsize::new(0),
+        AtomicUsize::new(0),
+        AtomicUsize::new(0),
+        AtomicUsize::new(0),
+    ];
+
+    /// Faults for the next calls of `Tty::write`, one per call; afterwards writes are normal again
+    pub fn set_write_script(script: Vec<WriteFault>) {
+        *SCRIPT.lock().unwrap_or_else(|e| e.into_inner()) = script.into();
+    }
+
+    /// Number of short writes, zero-byte writes, EAGAIN and EINTR faults delivered so far
+    pub fn write_fault_counts() -> [usize; 4] {
+        [
+            COUNTS[0].load(Ordering::SeqCst),
+            COUNTS[1].load(Ordering::SeqCst),
+            COUNTS[2].load(Ordering::SeqCst),
+            COUNTS[3].load(Ordering::SeqCst),
+        ]
+    }
+
+    pub(super) fn next_write_fault() -> Option<WriteFault> {
+        SCRIPT.lock().unwrap_or_else(|e| e.into_inner()).pop_front()
+    }
+
+    pub(super) fn count(kind: usize) {
+        COUNTS[kind].fetch_add(1, Ordering::SeqCst);
     }
 }
